@@ -8,6 +8,7 @@ mod framecases;
 mod loopcases;
 mod songcases;
 mod predefcases;
+mod filtercases;
 
 use std::io::{BufRead, Write};
 
@@ -44,6 +45,7 @@ fn dispatch(toks: &[&str]) -> String {
         "loop" => loopcases::run(toks),
         "songs" | "songs_nc" => songcases::run(toks),
         "predef" => predefcases::run(toks),
+        "filter" => filtercases::run(toks),
         other => format!("unknown-kind {}", other),
     }
 }
